@@ -1,5 +1,6 @@
 From Coq Require Import QArith List String Bool.
 From FV Require Import Base.Ser Base.Res C14.Model.
+From FV Require C14.ModelPointPen.
 Import ListNotations.
 Open Scope string_scope.
 Global Instance De_xf : De xf :=
@@ -15,11 +16,21 @@ Global Instance De_gseg : De gseg :=
              else if (k =? 1)%Z then match de r with Some (((a, b), c), r') => Some (GQ a b c, r') | None => None end
              else match de r with Some ((((a, b), c), d), r') => Some (GC a b c d, r') | None => None end
            | [] => None end.
+Definition ptype_code (t : ModelPointPen.ptype) : Z :=
+  match t with ModelPointPen.TMove => 0 | ModelPointPen.TLine => 1 | ModelPointPen.TCurve => 2 | ModelPointPen.TQCurve => 3 end%Z.
+Global Instance Ser_ptype : Ser ModelPointPen.ptype := fun t => [ptype_code t].
+Global Instance De_ptype : De ModelPointPen.ptype :=
+  fun l => match l with
+           | k :: r => Some ((if (k =? 0)%Z then ModelPointPen.TMove else if (k =? 1)%Z then ModelPointPen.TLine
+                              else if (k =? 2)%Z then ModelPointPen.TCurve else ModelPointPen.TQCurve), r)
+           | [] => None end.
 Definition reg : registry := [
   ("transformPoint", run2 transformPoint);
   ("xf_transform", run2 xf_transform);
   ("xf_inverse", run1 inv_or_none);
   ("area", run1 (fun l => Qred (area l)));
-  ("reversedContour", run2 reversedContour)
+  ("reversedContour", run2 reversedContour);
+  ("segment_to_point", run1 ModelPointPen.segment_to_point);
+  ("point_to_segment", run2 ModelPointPen.point_to_segment)
 ].
 Definition fv_entry := dispatch reg.
